@@ -64,3 +64,15 @@ Definition part_chain (c : list nat * obs) : bool :=
 (* the predicate the correspondence run evaluates: P_C18 and the chain clause *)
 Definition holds_C18_full (c : list nat * obs) : bool :=
   P_C18_full _ hit_tbl Src_db Src_keys Src_all Src_vendors (fst c) (snd c).
+
+(* ---- the short-name clause on the attribute set of the RUNNING code (added for seeded C18-7) ----
+   hier_short_ok above is evaluated against Src_all, the usable sequences the MODEL computes from the table; a
+   change of _make_allowed_by_seq that makes an ambiguous short name an attribute of one family only is then
+   invisible to it (the model says "not an attribute").  Here `all` is what the running code answers attribute
+   accesses for (true | false sequences of parse_hw_model): no prefix of a true attribute path - full or
+   shortened - evaluates to False. *)
+Definition part_short_on (all : list seq) (c : list nat * obs) : bool :=
+  match o_true (snd c) with
+  | Some tr => hier_short_ok all tr
+  | None => true
+  end.
